@@ -53,3 +53,24 @@ Proof. exact arch_next_checked_lt. Qed.
 Example C09_nonvacuous : resolve_direct ex_cfg ex3 (direct_of ex3 1) = ROk (Some (1, 1)) /\
                          resolve_direct ex_cfg ex4 (direct_of ex3 1) = ROk None.
 Proof. split; vm_compute; reflexivity. Qed.
+
+(* ---------------------------------------------------------------- whole histories *)
+From Gecs Require Import Query World Borrow Run WorldInv LoopFacts HistRun DirectHist.
+
+(** Along any history without wraparound the archetype version never decreases, and it has strictly
+    increased whenever some entity has left the archetype, by whatever path. *)
+Theorem C09_version_is_monotone_and_counts_removals : forall ac wr cfg s s',
+  wrapping cfg = false -> Inv s -> esteps ac wr cfg s s' ->
+  (version s <= version s')%N /\ ((exists e, e ∈ ents s /\ e ∉ ents s') -> (version s < version s')%N).
+Proof. exact esteps_version. Qed.
+
+(** Hence, for every history of the run language: a direct handle accepted at one point is rejected at
+    every later point by which some entity has left its archetype (destroy with any key, ecs_iter_destroy!),
+    no matter what else happened in between (creations, growth, reuse of the position, clones). *)
+Theorem C09_dies_with_any_removal : forall cfg d qs ops1 ops2 st1 st2 i a w1 w2 s1 s2 dh si dd,
+  hist_case cfg d qs (ops1 ++ ops2) = true ->
+  run_to cfg d qs rs0 ops1 = Some st1 -> run_to cfg d qs st1 ops2 = Some st2 ->
+  worlds st1 !! i = Some (Some w1) -> worlds st2 !! i = Some (Some w2) -> w1 !! a = Some s1 -> w2 !! a = Some s2 ->
+  key32 dh -> resolve_direct cfg s1 dh = ROk (Some (si, dd)) -> (exists e, e ∈ ents s1 /\ e ∉ ents s2) ->
+  resolve_direct cfg s2 dh = ROk None.
+Proof. exact run_direct_dies. Qed.
